@@ -82,3 +82,39 @@ package meta
 //@   requires m != nil && wfMeta(m)
 //@   ensures [C19] opened: result1 == nil ==> keyOK(encryptionKey) && has(m.Values, key) && openedAs(nodeBytes(m.Values[key]), encryptionKey, result0)
 //@   assigns [C20] nothing
+//@
+//@ // ---- C20: the read-only facade forwards to the operations above and writes nothing itself ---------
+//@ func (ReadOnly).GetBool
+//@   requires r.meta != nil && wfMeta(r.meta)
+//@   assigns [C20] nothing
+//@ func (ReadOnly).GetString
+//@   requires r.meta != nil && wfMeta(r.meta)
+//@   assigns [C20] nothing
+//@ func (ReadOnly).GetInt64
+//@   requires r.meta != nil && wfMeta(r.meta)
+//@   assigns [C20] nothing
+//@ func (ReadOnly).GetFloat64
+//@   requires r.meta != nil && wfMeta(r.meta)
+//@   assigns [C20] nothing
+//@ func (ReadOnly).GetBytes
+//@   requires r.meta != nil && wfMeta(r.meta)
+//@   assigns [C20] nothing
+//@ func (ReadOnly).GetEncryptedBytes
+//@   requires r.meta != nil && wfMeta(r.meta)
+//@   assigns [C20] nothing
+//@ func (ReadOnly).GetEncryptedString
+//@   requires r.meta != nil && wfMeta(r.meta)
+//@   assigns [C20] nothing
+//@ func (ReadOnly).GetNode
+//@   requires r.meta != nil
+//@   assigns [C20] nothing
+//@ func (ReadOnly).Iter
+//@   requires r.meta != nil
+//@   assigns [C20] nothing
+//@ func (ReadOnly).Equals
+//@   requires r.meta != nil && other.meta != nil
+//@   assigns [C20] nothing
+//@ func (ReadOnly).String
+//@   requires r.meta != nil
+//@   assigns [C20] nothing
+//@ // (ReadOnly).WriteableClone stays without a contract: see DESIGN.md 7.3 (fields of a fresh result of a frame-free callee)
